@@ -334,3 +334,26 @@ var (
 	pEOFWithData = simrt.NewProbe("io.eof-with-data")
 	pSeek        = simrt.NewProbe("io.seek")
 )
+
+// GrowingReaderAt is an io.ReaderAt over a buffer that records are appended to before the
+// readers start (never while they run).
+type GrowingReaderAt struct{ Buf []byte }
+
+// Append adds a record and returns its offset.
+func (g *GrowingReaderAt) Append(rec []byte) int64 {
+	off := int64(len(g.Buf))
+	g.Buf = append(g.Buf, rec...)
+	return off
+}
+
+func (g *GrowingReaderAt) ReadAt(p []byte, off int64) (int, error) {
+	simrt.YieldNow()
+	if off >= int64(len(g.Buf)) {
+		return 0, io.EOF
+	}
+	n := copy(p, g.Buf[off:])
+	if n < len(p) {
+		return n, io.EOF
+	}
+	return n, nil
+}
